@@ -5,16 +5,17 @@
 set -u
 D="$1"; shift
 CHECKS="${*:-C01 C02 C03 C04 C05 C06 C07 C08 C09 C10 C11 C12 C13 C14 C15 C16 C17 C18}"
-cd /repo || exit 2
+REPO="${VH_REPO_DIR:-/repo}"; VERIF="${VH_VERIF_DIR:-/verif}"
+cd "$REPO" || exit 2
 if [ -n "$(git status --porcelain)" ]; then echo "/repo not clean"; exit 2; fi
 if ! git apply "$D/patch.diff"; then echo "patch does not apply"; exit 2; fi
-trap 'cd /repo && git checkout -q -- . && git clean -fdq' EXIT INT TERM
+trap 'cd "$REPO" && git checkout -q -- . && git clean -fdq' EXIT INT TERM
 # the existing suite must still pass with the change
-if /verif/tools/repotest.sh >/tmp/seedrun.suite.$$ 2>&1; then echo "suite: PASS"; else echo "suite: FAIL"; tail -5 /tmp/seedrun.suite.$$; fi
+if "$VERIF/tools/repotest.sh" >/tmp/seedrun.suite.$$ 2>&1; then echo "suite: PASS"; else echo "suite: FAIL"; tail -5 /tmp/seedrun.suite.$$; fi
 rm -f /tmp/seedrun.suite.$$
 caught=""
 for c in $CHECKS; do
-  out=$(cd /verif && ./check $c quick 2>&1)
+  out=$(cd "$VERIF" && ./check $c quick 2>&1)
   rc=$?
   line=$(echo "$out" | grep -E "^(OK|FAILED|INCONCLUSIVE)" | tail -1)
   w=$(echo "$out" | grep -E "^  witness" | head -1 | cut -c1-220)
